@@ -29,7 +29,10 @@ import numpy as np
 REPO = os.environ.get('VERIF_REPO', '/repo')
 VERIF = os.path.dirname(os.path.dirname(os.path.abspath(__file__)))
 
-CASE_TIMEOUT_S = float(os.environ.get('VERIF_CASE_TIMEOUT', '60'))
+CASE_TIMEOUT_S = float(os.environ.get('VERIF_CASE_TIMEOUT', '900'))
+# a per-case timeout is a verdict only for properties that state termination (C18 sets this); elsewhere the slow part is
+# usually the dense oracle, and a timeout is reported as a harness error, never as a violation
+TIMEOUT_IS_VIOLATION = False
 
 
 def canon(obj):
@@ -193,7 +196,11 @@ class Space:
             ctx.fails = []
             ctx.notes.append('ood')
         except CaseTimeout:
-            ctx.fail('termination', f'case did not finish within {CASE_TIMEOUT_S}s')
+            if TIMEOUT_IS_VIOLATION:
+                ctx.fail('termination', f'case did not finish within {CASE_TIMEOUT_S}s')
+            else:
+                ctx.notes.append('harness_error')
+                ctx.fail('HARNESS', f'case did not finish within {CASE_TIMEOUT_S}s (oracle or implementation too slow for this bound)')
         except Exception as e:  # noqa: BLE001
             loc = _pytenet_frame(e.__traceback__)
             if loc is None:
